@@ -231,6 +231,9 @@ def run(fx, tier):
     # a PUBREL that arrives before the PUBREC write completes is parked; it must survive until its waiter registers
     from c01 import fast_reply_rules
     fast_reply_rules(fx, v, 'C04')
+    # acknowledgements of inbound messages are never held back by the Receive Maximum quota
+    from c07 import throttled_flag_owner_rule
+    throttled_flag_owner_rule(fx, v, 'C04')
     # framing state vs connection: when the read reports a reconnect (try_again) every byte buffered from the OLD
     # connection is discarded before reading from the new one — otherwise the tail of an interrupted packet is joined
     # with the head of the retransmitted one and a corrupted message is delivered and acknowledged
@@ -271,6 +274,11 @@ def run(fx, tier):
                     where='%s:%s' % (f.path_file(), l))
     if n_reset == 0 and not v.violations:
         raise AnalysisBroken('assemble_op::on_read: no re-read on the reconnect edge found')
+    # a PUBREL judged inadmissible is answered with DISCONNECT instead of PUBCOMP (shared with C20)
+    from c20 import table_rows_rule
+    if 'R-TABLE' not in v.rules:
+        v.rule('R-TABLE', 'reason-code tables of the packets this property handles equal the MQTT 5 tables')
+    table_rows_rule(fx, v, 'C04', ('pubrel',))
     v.expect_min('R-CGRAPH', 40, 'paths × rules')
     v.expect_min('R-FLOW', 40, 'id/message provenance sites')
     v.expect_min('R-DOM', 10, 'replies/session structure × TUs')
